@@ -107,7 +107,16 @@ def run(ctx: Ctx) -> None:
     # ---- code -> spec: seeded deeper programs judged by TLC ----------------------------------------
     cases = []
     n_sim, n_real = ctx.pick(250, 3000), ctx.pick(30, 400)
-    for i in range(n_sim + n_real):
+    n_shared = ctx.pick(150, 1500)
+    for i in range(n_sim + n_real + n_shared):
+        if i >= n_sim + n_real:
+            # shared sub-expressions under one parent, many completion orders
+            e = EL.shared_expr_program(ctx.rng)
+            expr = EL.build(e)
+            obs = EL.run_sim(expr, ctx.rng, p_finish=ctx.rng.choice([0.15, 0.5, 0.85]))
+            cases.append({"id": len(cases) + 1, "e": e, "ctx": EL.to_value({}), "run": EL.to_value({}),
+                          "obs": obs, "mode": "sim-shared"})
+            continue
         e = EL.wrap_container(ctx.rng, EL.random_expr(ctx.rng, ctx.rng.randint(2, 4)))
         mode = "sim" if i < n_sim else "real"
         expr = EL.build(e)
